@@ -542,9 +542,13 @@ fn gen_gc_policy(rng: &mut Rng, depth: u32) -> String {
     if depth == 0 || rng.chance(1, 2) {
         return leaf(rng);
     }
-    let n = rng.range(1, 3);
+    // The policy language allows empty lists.  `all()` keeps every version and is generated;
+    // `any()` keeps nothing, current values included: for it the two clauses of C05 (only what the
+    // policy allows / never the entry that decides the current value) contradict each other, so
+    // it is left out rather than judged.
+    let n = if rng.chance(1, 6) { 0 } else { rng.range(1, 3) };
     let parts: Vec<String> = (0..n).map(|_| gen_gc_policy(rng, depth - 1)).collect();
-    if rng.chance(1, 2) {
+    if n > 0 && rng.chance(1, 2) {
         format!("any({})", parts.join(", "))
     } else {
         format!("all({})", parts.join(", "))
